@@ -214,6 +214,26 @@ def oracles(ctx, deep):
             want = {(x, y) for x in range(rows) for y in range(cols) if (x - cx) ** 2 + (y - cy) ** 2 < r0 * r0}
             if bad or pts != want:
                 add(Violation("acs-disc", "%s (%s, %dx%d, fraction %s): ACS is not the disc of radius %d around the centre sample (%d,%d), point-symmetric about it" % (name, mode, rows, cols, cf, r0, cx, cy), {"config": cfg, "asymmetric": bad[:5], "missing": sorted(want - pts)[:5], "extra": sorted(pts - want)[:5]}, {"generator": name, "kind": "acs-disc"}))
+    # the centre disc itself, also for grids of clinical size (640 x 368 and the like)
+    import numpy as np
+    from direct.common.subsample import centered_disk_mask
+
+    for t in range(ctx.n(12, 60)):
+        shape = rng.choice([(400, 368), (512, 512), (640, 368), (320, 320), (rng.randint(8, 700), rng.randint(8, 700)), (rng.randint(300, 700), rng.randint(300, 700))])
+        cfr = rng.choice([0.01, 0.02, 0.04, 0.08])
+        runs += 1
+        try:
+            d = np.asarray(centered_disk_mask(shape, cfr)).astype(bool)
+        except Exception as e:  # noqa
+            add(Violation("acs-disc", "centered_disk_mask(%s, %s) raises %s" % (shape, cfr, type(e).__name__), {"shape": list(shape), "fraction": cfr}, {"generator": "centered_disk_mask", "kind": "acs-disc"}))
+            continue
+        cx, cy = shape[0] // 2, shape[1] // 2
+        r0 = int(math.sqrt(shape[0] * shape[1] * cfr / math.pi))
+        X, Y = np.meshgrid(np.arange(shape[0], dtype=np.int64), np.arange(shape[1], dtype=np.int64), indexing="ij")
+        ref = ((X - cx) ** 2 + (Y - cy) ** 2) < r0 * r0
+        if d.shape != ref.shape or not np.array_equal(d, ref):
+            extra = np.argwhere(d & ~ref)[:3].tolist() if d.shape == ref.shape else []
+            add(Violation("acs-disc", "centered_disk_mask(%s, %s) is not the disc of radius %d around the centre sample (%d,%d): %d cells differ (e.g. %s)" % (shape, cfr, r0, cx, cy, int((d != ref).sum()) if d.shape == ref.shape else -1, extra), {"shape": list(shape), "fraction": cfr, "extra": extra}, {"generator": "centered_disk_mask", "kind": "acs-disc"}))
     # every generator with two (acceleration, centre fraction) pairs and the tuple seeds of the data pipeline: the two calls
     # draw the same pair, and the ACS is inside the sampling mask
     for name in G.ALL:
